@@ -3,6 +3,7 @@ import Proofs.Chunks
 import Proofs.FrameOps
 import Proofs.DescendSpec
 import Proofs.Traverse
+import Proofs.Windup
 /-! C02 — stored LRUs read back byte-identical, any stem length. Proved so far: the block codec
     round-trips; a stem of *any* length written by `writeNew` (head + tail blocks) reads back
     byte-identical; existing stems are untouched by later insertions. The search/traversal agreement
@@ -55,6 +56,28 @@ theorem C02_traversal {s : State} {t : T} (h : Shape s t) :
 /-- …and the blocks it meets are exactly the blocks of the finite map -/
 theorem C02_traversal_covers_map {s : State} {t : T} (_h : Shape s t) :
     ((t.entries s []).map (·.2)).Perm t.addrs := entries_addrs_perm t []
+
+/-- bottom-up reconstruction from the located entry agrees byte for byte with the path -/
+theorem C02_windup {s : State} {t : T} (h : Shape s t) (hp : ParOk s t 0) {p : LRU} {b : Nat}
+    (hb : (p, b) ∈ t.entries s []) : s.windup b = p.flatten := windup_eq h hp hb
+
+/-- and right after an insertion: the block `add_lru` returns winds up to the inserted LRU -/
+theorem C02_insert_then_windup {s : State} {t : T} (h : Shape s t) (hp : ParOk s t 0) (stems : LRU) (hne : stems ≠ [])
+    (flag : Bool) : (s.addLru stems flag).1.windup (s.addLru stems flag).2.1 = stems.flatten :=
+  (addLru_windup h hp stems hne flag).1
+
+/-- `add_lru` preserves the invariant, returns the block of the LRU, adds exactly its missing
+    stem-prefixes (at fresh blocks) and keeps every old entry and stem -/
+theorem C02_inv {s : State} {t : T} (h : Shape s t) (stems : LRU) (flag : Bool) (hne : stems ≠ []) :
+    let s' := (s.addLru stems flag).1
+    let n  := (s.addLru stems flag).2.1
+    ∃ t', Shape s' t' ∧ (stems, n) ∈ t'.entries s' [] ∧
+      (∀ p b, (p, b) ∈ t.entries s [] → (p, b) ∈ t'.entries s' []) ∧
+      (∀ p b, (p, b) ∈ t'.entries s' [] → (p, b) ∈ t.entries s [] ∨
+          (s.trie.size ≤ b ∧ ∃ k, 0 < k ∧ k ≤ stems.length ∧ p = stems.take k)) ∧
+      (∀ a, a < s.trie.size → s'.stemAt a = s.stemAt a) := addLru_shape h stems flag hne
+
+theorem C02_inv_init : Shape ({} : State) .nil := shape_init
 
 /-- non-vacuity: lengths 74, 75, 148, 149 are instances, not cases -/
 example : ∀ n ∈ [1, 73, 74, 75, 147, 148, 149, 222, 223], blocksFor (List.replicate n 65) = (n + 73) / 74 := by decide
